@@ -1,6 +1,8 @@
 package wire
 
 import (
+	"github.com/jeroenrinzema/psql-wire/codes"
+	psqlerr "github.com/jeroenrinzema/psql-wire/errors"
 	"io"
 	"context"
 	"errors"
@@ -106,11 +108,20 @@ func VerifH01b() {
 	}
 	middleware := 0
 	w := &vWorld{parseMenu: 2, execMenu: 2}
-	srv, err := NewServer(w.parse,
-		MessageBufferSize(32),
-		SessionAuthStrategy(ClearTextPassword(validate)),
-		SessionMiddleware(func(ctx context.Context) (context.Context, error) { middleware++; return ctx, nil }),
-	)
+	mwOpt := SessionMiddleware(func(ctx context.Context) (context.Context, error) { middleware++; return ctx, nil })
+	var srv *Server
+	var err error
+	if nondetBool() {
+		srv, err = NewServer(w.parse, MessageBufferSize(32), SessionAuthStrategy(ClearTextPassword(validate)), mwOpt)
+	} else {
+		// the embedder may set the strategy through the exported field after
+		// construction instead of through the option
+		srv, err = NewServer(w.parse, MessageBufferSize(32), mwOpt)
+		if err == nil {
+			srv.Auth = ClearTextPassword(validate)
+		}
+		vReach("strategy-set-through-the-exported-field")
+	}
 	vAssert("newserver-ok", err == nil)
 	conn := vNewConn(input)
 	var serveErr error
@@ -526,6 +537,13 @@ func VerifH19() {
 	var sessionCtx context.Context
 	w := &vWorld{parseMenu: 2, execMenu: 2}
 	opts := []OptionFn{MessageBufferSize(64)}
+	mwErrKind := 0
+	if failAt >= 0 {
+		mwErrKind = vChoose(4)
+		if mwErrKind > 0 {
+			vReach("middleware-error-with-a-notice-level-severity")
+		}
+	}
 	for i := 0; i < m; i++ {
 		i := i
 		opts = append(opts, SessionMiddleware(func(ctx context.Context) (context.Context, error) {
@@ -537,6 +555,16 @@ func VerifH19() {
 			}
 			vAssert("middleware-does-not-see-successors", ctx.Value(vKey(i)) == nil)
 			if i == failAt {
+				// (whatever the error says about itself — a notice-level severity, a
+				// code — a middleware that returns an error has refused the session)
+				switch mwErrKind {
+				case 1:
+					return ctx, psqlerr.WithSeverity(errors.New("middleware failed"), psqlerr.LevelWarning)
+				case 2:
+					return ctx, psqlerr.WithSeverity(psqlerr.WithCode(errors.New("middleware failed"), codes.Warning), psqlerr.LevelNotice)
+				case 3:
+					return nil, psqlerr.WithSeverity(errors.New("middleware failed"), psqlerr.LevelLog)
+				}
 				return ctx, errors.New("middleware failed")
 			}
 			ctx = context.WithValue(ctx, vKey(i), i)
